@@ -1690,7 +1690,7 @@ func (p *wat2cWorker) buildFunc_ins(w io.Writer, fn *ast.Func, stk *valueTypeSta
 		sp0 := stk.Pop(token.I32)
 		sp1 := stk.Pop(token.I32)
 		ret0 := stk.Push(token.I32)
-		fmt.Fprintf(w, "%sR%d.i32 = R%d.i32 %% R%d.i32; // %s\n",
+		fmt.Fprintf(w, "%sR%d.i32 = (R%[4]d.i32 == -1)? 0: R%[3]d.i32 %% R%[4]d.i32; // %[5]s\n",
 			indent, ret0, sp1, sp0,
 			insString(i),
 		)
@@ -1831,7 +1831,7 @@ func (p *wat2cWorker) buildFunc_ins(w io.Writer, fn *ast.Func, stk *valueTypeSta
 		sp0 := stk.Pop(token.I64)
 		sp1 := stk.Pop(token.I64)
 		ret0 := stk.Push(token.I64)
-		fmt.Fprintf(w, "%sR%d.i64 = (int64_t)((int64_t)(R%d.i64)%%(int64_t)(R%d.i64)); // %s\n",
+		fmt.Fprintf(w, "%sR%d.i64 = (R%[4]d.i64 == -1)? 0: (int64_t)((int64_t)(R%[3]d.i64)%%(int64_t)(R%[4]d.i64)); // %[5]s\n",
 			indent, ret0, sp1, sp0,
 			insString(i),
 		)
